@@ -110,7 +110,9 @@ def writes(L, p):
             out.append((a[1] if a[0] == "str" else "{}", () if a[0] == "str" else (L.lift(a),), e))
         elif e.name.endswith("::write_char") and "core::fmt" in e.name:
             a = e.args[1]
-            if a[0] == "int":
+            if a[0] == "int" and chr(a[1]) in "kqKQ":
+                out.append(("{}", (("int", a[1], "char"),), e))       # a castling letter written as a constant: still a value
+            elif a[0] == "int":
                 out.append((chr(a[1]), (), e))
             else:
                 out.append(("{}", (L.lift(a),), e))
@@ -193,21 +195,42 @@ def run(ctx):
     try:
         n = 0
         for p in rets:
-            w = [(t, a) for t, a, e in writes(L, p) if not (t == "{}" and a and castle_letter(a[0]) is not None)]
+            # everything written after the placement, as one string: literal text as it is, each formatted value as a tag
+            # (S side to move, L a castling letter, E the en-passant square, H / F the clocks); how the text is cut into
+            # write! / write_str / write_char calls does not matter
             n += 1
-            ok = len(w) >= 3 and w[0] == (" {} ", (STM,))
-            rest = w[1:]
-            if ok and rest and rest[0] == ("-", ()):
-                rest = rest[1:]
-            ok = ok and len(rest) == 2 and rest[0] in ((" -", ()), (" {}", (epsq,))) and rest[1][0] == " {} {}" and \
-                [x for x in rest[1][1]] == [("get", "halfmove_clock", SELF), ("get", "fullmove_number", SELF)] or \
-                (ok and len(rest) == 2 and rest[0] in ((" -", ()), (" {}", (epsq,))) and rest[1][0] == " {} {}" and rest[1][1] == (hm, fm))
-            ctx.check(ok, "display:field-order", "after the placement the record is not ` side [castling] ep halfmove fullmove` with single spaces: %s"
-                      % [(t, [sym.show(x)[:40] for x in a]) for t, a in w], where, sample={"templates": [t for t, a in w]} if n == 1 else None)
+            import re as _re
+            line = ""
+            shown = []
+            for t_, a_, e_ in writes(L, p):
+                shown.append((t_, [sym.show(x)[:40] for x in a_]))
+                parts_ = t_.split("{}")
+                if len(parts_) - 1 != len(a_):
+                    line += "?"
+                    continue
+                for i_, lit_ in enumerate(parts_):
+                    line += lit_
+                    if i_ < len(a_):
+                        x_ = a_[i_]
+                        if castle_letter(x_) is not None:
+                            line += "L"
+                        elif x_ == epsq:
+                            line += "E"
+                        elif x_ in (("get", "halfmove_clock", SELF), hm):
+                            line += "H"
+                        elif x_ in (("get", "fullmove_number", SELF), fm):
+                            line += "F"
+                        elif x_ == STM or (x_[0] == "call" and x_[1].endswith("Into<U>>::into") and x_[2] == (STM,)):
+                            line += "S"
+                        else:
+                            line += "?"
+            m_ = _re.match(r"^ S (L{1,4}|-) (E|-) H F$", line)
+            ctx.check(m_ is not None, "display:field-order", "after the placement the record is not ` side castling ep halfmove fullmove` with single spaces: %r from %s"
+                      % (line, shown), where, sample={"record": line} if n == 1 else None)
             epstate = [c[1] for c in p.conds if L.lift(c[0]) == ("discr", ("get", "en_passant", SELF))]
-            if epstate:
+            if epstate and m_ is not None:
                 some = epstate[0] == 1
-                ctx.check((rest[0][0] == " {}") == some if len(rest) == 2 else False, "display:ep-dash-iff-none", "the en-passant field is not `-` exactly when no file is set", where)
+                ctx.check((m_.group(2) == "E") == some, "display:ep-dash-iff-none", "the en-passant field is not `-` exactly when no file is set", where)
         ctx.floor("Display returning paths", n, 2)
     except ValueError as e:
         ctx.fail("display:template-decoding", "cannot decode a format template: %s" % e, where)
@@ -446,8 +469,8 @@ def run(ctx):
         # every right found present gets its letter, every right found absent gets none
         held = [k for i_, k, pr in asked if pr]
         ctx.check(sorted(held) == sorted(seq), "writer:held-right-written", "held rights %s but letters for %s" % (held, seq), where)
-        has_dash = ("-", ()) in [(t_, a_) for t_, a_, e_ in stream]
-        ctx.check(has_dash == (not seq), "writer:dash-iff-nothing-written", "`-` for the castling field is not written exactly when no letter was", where)
+        # (`-` exactly when no letter is written: the record rule above requires the field to be letters or a dash, never
+        # both or neither)
     ctx.floor("castling letters written on Display's paths", nletters, 8)
     ctx.check(all(v == {True, False} for v in decided.values()), "writer:all-four-rights-asked",
               "Display does not ask for each of the four castling rights: %s" % {k: sorted(v) for k, v in decided.items()}, where)
@@ -483,6 +506,13 @@ def run(ctx):
                             if lc:
                                 break
                     cv = lc[0][2][0] if lc else None
+                    if cv is None:
+                        # the letter examined as it is (`match c { 'k' | 'K' => .. }`): the character the loop took last
+                        for c_ in reversed(conds):
+                            cs_ = sym.subterms(c_[0], lambda y: y[0] in ("nth", "elem") and sym.contains(y, lambda z: z[0] == "chars"))
+                            if cs_:
+                                cv = cs_[0]
+                                break
                     while cv is not None and cv[0] in ("ref", "deref"):
                         cv = cv[1]
                     bd = Ranger(f, {cv: "char"}).bounds(cv, conds) if cv is not None else None
@@ -496,9 +526,17 @@ def run(ctx):
                             is_up = False
                 okcol = is_up is not None and ((colour == ("enum", COLOR, "White")) == is_up)
                 ctx.check(okcol, "reader:castle-case", "a castling letter's colour is not White exactly for upper-case", loc(cb))
-                if sh and sh[-1] == 0 and lower:
+                letter = chr(lower[-1][1]) if lower else None
+                if letter is None and not up:
+                    # the path fixed the character itself
+                    if bd is not None and None not in bd and bd[0] == bd[1]:
+                        letter = chr(bd[0]).lower()
+                if sh and sh[-1] == 0 and letter is not None:
                     fileval = dict(val[4])["0"] if val[0] == "agg" else None
-                    plain[chr(lower[-1][1])] = (wing, fileval)
+                    if letter in plain and plain[letter] != (wing, fileval):
+                        plain[letter + "'"] = (wing, fileval)        # the two cases of one letter disagree
+                    else:
+                        plain[letter] = (wing, fileval)
                 elif sh and sh[-1] == 1:
                     shred += 1
                     fileval = dict(val[4])["0"] if val[0] == "agg" else None
